@@ -32,6 +32,9 @@ prepare() {
   for f in "$REPO"/*.go; do
     case "$f" in *_test.go) ;; *) cp "$f" "$S/jsonapi/" || die2 "copy";; esac
   done
+  # sub-packages the root package may import (none today): copied as they are, minus their tests;
+  # only the root package is instrumented
+  (cd "$REPO" && find . -mindepth 2 -type f -not -path './.*/*' -not -path './examples/*' -not -path './testdata/*' -not -path './assets/*' -not -name '*_test.go' -print0 2>/dev/null | tar cf - --null -T - 2>/dev/null) | (cd "$S/jsonapi" && tar xf - 2>/dev/null)
   # the injected generic helper needs go >= 1.18; a tree that asks for a newer language version keeps it
   local gov; gov="$(awk '$1=="go"{print $2; exit}' "$REPO/go.mod" 2>/dev/null)"
   case "$gov" in 1.[0-9]|1.1[0-7]|"") gov=1.18;; esac
